@@ -314,6 +314,16 @@ def c02_candidates(P, uni):
         except Exception:
             continue
         _blk(P, [t], 'output-value-%s' % nm, out)
+    # the same boundary values at other positions of a three-output list (and a total over the limit made of admissible parts)
+    for pos in (1, 2):
+        for val, nm in ((0, '0'), (MAXS + 1, 'max+1')):
+            outs3 = [(COIN // 2, K[1]), (COIN // 3, K[2]), (5, K[0])]
+            outs3[pos] = (val, outs3[pos][1])
+            try:
+                _blk(P, [mk_tx([(o_ref, K[0])], outs3)], 'output-value-%s-at-position-%d' % (nm, pos), out)
+            except Exception:
+                pass
+    _blk(P, [mk_tx([(o_ref, K[0])], [(MAXS // 2, K[1]), (MAXS // 2, K[2]), (MAXS // 2, K[0])])], 'three-outputs-half-max-each', out)
     _blk(P, [mk_tx([(o_ref, K[0])], [(1, K[1])])], 'output-value-1', out, control=True)
     _blk(P, [mk_tx([(o_ref, K[0])], [(MAXS, K[1])])], 'output-value-max-unfunded', out)
     _blk(P, [mk_tx([(o_ref, K[0])], [(MAXS, K[1]), (MAXS, K[2])])], 'two-outputs-max-each', out)
